@@ -119,9 +119,12 @@ class ORSet:
 
     def to_dict(self) -> dict:
         """Serialize to a plain dict."""
-        entries = {}
-        for element, tags in self._entries.items():
-            entries[str(element)] = [list(tag) for tag in sorted(tags)]
+        # [element, tags] pairs rather than a dict keyed by str(element): the
+        # elements keep their type, and 1 / "1" stay two different elements.
+        entries = [
+            [element, [list(tag) for tag in sorted(tags)]]
+            for element, tags in self._entries.items()
+        ]
         return {
             "type": "ORSet",
             "node_id": self._node_id,
@@ -139,7 +142,10 @@ class ORSet:
         """
         s = cls(data["node_id"])
         s._seq = data["seq"]
-        for element, tags in data["entries"].items():
+        entries = data["entries"]
+        if isinstance(entries, dict):  # older format: {str(element): tags}
+            entries = entries.items()
+        for element, tags in entries:
             s._entries[element] = {tuple(tag) for tag in tags}
         s._removed = {tuple(tag) for tag in data.get("removed", [])}
         return s
